@@ -20,6 +20,9 @@ import (
 )
 
 func run(b *harness.B) {
+	if b.Batch == 0 {
+		rewardSchedule(b)
+	}
 	nNets := b.Pick(3, 10)
 	blocks := b.Pick(150, 600)
 	for i := 0; i < nNets; i++ {
@@ -487,6 +490,6 @@ func main() {
 		Run:         run,
 		MinEvals:    1000,
 		MinDistinct: 200,
-		Require:     []string{"networks_with_a_genesis_allocating_20000_siafunds", "blocks_applied", "blocks_reverted", "conservation_identities_checked", "claims_checked_nonzero", "foundation_subsidies", "blocks_with_fees", "store_vs_ledger_comparisons", "histories_with_forfeited_value", "greedy_variants_rejected", "two_contract_transactions_tried", "v1_revisions_of_contracts_formed_under_the_other_tax_rule", "v1_revisions_checked_by_the_ledger"},
+		Require:     []string{"networks_with_a_genesis_allocating_20000_siafunds", "blocks_applied", "blocks_reverted", "conservation_identities_checked", "claims_checked_nonzero", "foundation_subsidies", "blocks_with_fees", "store_vs_ledger_comparisons", "histories_with_forfeited_value", "greedy_variants_rejected", "two_contract_transactions_tried", "v1_revisions_of_contracts_formed_under_the_other_tax_rule", "v1_revisions_checked_by_the_ledger", "reward_schedule_heights_checked"},
 	})
 }
